@@ -4,6 +4,7 @@ import (
 	"context"
 	"errors"
 	"fmt"
+	"sort"
 	"time"
 
 	"github.com/pion/transport/v3/connctx"
@@ -228,6 +229,159 @@ func c17scenario(kind, dir string, bound int, peerSlow bool, silent ...bool) *ex
 	return sc
 }
 
+// c17concurrent: TWO threads use the same wrapped connection at the same time (the wrappers serialise
+// them); the context of one is cancelled, the other's stays live.  The live operation must never fail
+// with a context or timeout error, and every byte is accounted for.
+func c17concurrent(kind, dir string, bound int) *explore.Scenario {
+	name := fmt.Sprintf("%s two concurrent %ss, one cancelled", kind, dir)
+	packet := kind == "netctx.PacketConn"
+	sc := &explore.Scenario{Name: name, Bound: bound}
+	sc.Cfg.Horizon = 10 * time.Second
+	sc.Make = func() (func(), func(*zzvsched.Exec) (string, *explore.Violation)) {
+		var a *fakeConn
+		var n1 int
+		var e1 error
+		var liveErrs []error
+		var liveNs []int
+		op1done, cancelled := false, false
+		liveDone := 0
+		var recv, sent [][]byte
+		body := func() {
+			var b *fakeConn
+			capa := 4
+			if packet {
+				capa = 1
+			}
+			a, b = newFakePair(packet, capa)
+			w := wrapCtx(kind, a)
+			ctx1, cancel1 := zzvsched.WithCancel()
+			ctx2, _ := zzvsched.WithCancel()
+			if dir == "read" {
+				zzvsched.GoNamed("opA", func() {
+					buf := make([]byte, 8)
+					n1, e1 = w.read(ctx1, buf)
+					if n1 > 0 {
+						recv = append(recv, append([]byte(nil), buf[:n1]...))
+					}
+					op1done = true
+				})
+				zzvsched.GoNamed("opB", func() {
+					for i := 0; i < 2; i++ {
+						buf := make([]byte, 8)
+						n, err := w.read(ctx2, buf)
+						liveNs, liveErrs = append(liveNs, n), append(liveErrs, err)
+						liveDone++
+						if err != nil {
+							return
+						}
+						recv = append(recv, buf[:n])
+					}
+				})
+				zzvsched.GoNamed("peer", func() {
+					for _, m := range [][]byte{[]byte("abc"), []byte("Z")} {
+						if _, err := b.Write(m); err != nil {
+							return
+						}
+						sent = append(sent, m)
+					}
+				})
+			} else {
+				zzvsched.GoNamed("opA", func() {
+					n1, e1 = w.write(ctx1, []byte("abcdef"))
+					op1done = true
+				})
+				zzvsched.GoNamed("opB", func() {
+					n, err := w.write(ctx2, []byte("XY"))
+					liveNs, liveErrs = append(liveNs, n), append(liveErrs, err)
+					liveDone++
+				})
+				zzvsched.GoNamed("peer", func() {
+					for {
+						buf := make([]byte, 8)
+						if !packet {
+							buf = buf[:3]
+						}
+						n, err := b.Read(buf)
+						if err != nil {
+							return
+						}
+						recv = append(recv, buf[:n])
+					}
+				})
+			}
+			zzvsched.GoNamed("canceller", func() {
+				cancel1()
+				cancelled = true
+			})
+		}
+		check := func(ex *zzvsched.Exec) (string, *explore.Violation) {
+			bytesOf := func(ms [][]byte) string {
+				var all []byte
+				for _, m := range ms {
+					all = append(all, m...)
+				}
+				sort.Slice(all, func(i, j int) bool { return all[i] < all[j] })
+				return string(all)
+			}
+			out := fmt.Sprintf("A=(%d,%v) B=%v/%v recv=%q", n1, errShort(e1), liveNs, liveErrs, recv)
+			pre := name + ": "
+			if len(ex.Panics) > 0 {
+				return out, &explore.Violation{Sig: "C17 panic", Msg: pre + "panic: " + ex.Panics[0].Value + "\n" + ex.Panics[0].Stack}
+			}
+			if ex.HorizonHit {
+				return out + " HORIZON", nil
+			}
+			for i, err := range liveErrs {
+				if err != nil {
+					return out, &explore.Violation{Sig: "C17 live-op-failed " + kind, Msg: pre + fmt.Sprintf("%s #%d of the thread whose context is live failed: (%d, %v)", dir, i+1, liveNs[i], err)}
+				}
+			}
+			queued := false // still waiting for the wrapper's per-direction mutex behind the live operation: it has not begun
+			for _, pk := range ex.Parked {
+				if pk.Name == "opA" && pk.Op == "lock" {
+					queued = true
+				}
+			}
+			if !op1done && cancelled && !queued {
+				return out, &explore.Violation{Sig: "C17 cancelled-op-still-blocked " + kind, Msg: pre + fmt.Sprintf("the context was cancelled but the %s never returned: %v", dir, ex.Parked)}
+			}
+			if op1done && isCtxErr(e1) && n1 != 0 {
+				return out, &explore.Violation{Sig: "C17 ctx-error-with-bytes " + kind, Msg: pre + fmt.Sprintf("operation returned the context error together with n=%d", n1)}
+			}
+			if dir == "read" {
+				if bytesOf(recv) != bytesOf(sent) {
+					if liveDone < 2 || len(sent) < 2 {
+						return out, &explore.Violation{Sig: "C17 bytes-not-conserved " + kind, Msg: pre + fmt.Sprintf("the peer wrote %q, the two readers obtained %q, and at quiescence a reader with a live context is still waiting: %v", sent, recv, ex.Parked)}
+					}
+					return out, &explore.Violation{Sig: "C17 bytes-not-conserved " + kind, Msg: pre + fmt.Sprintf("the peer wrote %q but the two readers obtained %q", sent, recv)}
+				}
+			} else {
+				if liveDone < 1 {
+					return out, &explore.Violation{Sig: "C17 probe-blocked " + kind, Msg: pre + fmt.Sprintf("the write with a live context never returned: %v", ex.Parked)}
+				}
+				if liveNs[0] != 2 {
+					return out, &explore.Violation{Sig: "C17 short-write-without-error " + kind, Msg: pre + fmt.Sprintf("live write returned (%d, nil)", liveNs[0])}
+				}
+				if packet && n1 != 0 && n1 != 6 {
+					return out, &explore.Violation{Sig: "C17 partial-datagram " + kind, Msg: pre + fmt.Sprintf("WriteToContext reported n=%d of a 6-byte datagram", n1)}
+				}
+				want := [][]byte{[]byte("abcdef")[:n1], []byte("XY")}
+				if bytesOf(recv) != bytesOf(want) {
+					return out, &explore.Violation{Sig: "C17 bytes-not-conserved " + kind, Msg: pre + fmt.Sprintf("the writes reported %d and 2 bytes but the peer received %q", n1, recv)}
+				}
+			}
+			if len(ex.Parked) == 0 || dir == "write" {
+				if len(a.SetRD) > 0 && !a.rdl.IsZero() || len(a.SetWD) > 0 && !a.wdl.IsZero() {
+					return out, &explore.Violation{Sig: "C17 leftover-deadline " + kind, Msg: pre + fmt.Sprintf("at quiescence the wrapped connection still carries a deadline (read %v, write %v)", a.rdl, a.wdl)}
+				}
+			}
+			return out, nil
+		}
+		return body, check
+	}
+	return sc
+}
+
 func isCtxErr(err error) bool {
 	return errors.Is(err, context.Canceled) || errors.Is(err, context.DeadlineExceeded)
 }
@@ -262,10 +416,15 @@ func init() {
 					}
 					out = append(out, c17scenario(k, d, b, false, true))
 					out = append(out, c17scenario(k, d, b, false, true, true))
+					cb := 2
+					if tier == "thorough" {
+						cb = 3
+					}
+					out = append(out, c17concurrent(k, d, cb))
 				}
 			}
 			return out
 		},
-		Rule:        "for netctx.Conn, netctx.PacketConn and connctx over a scheduler-visible pipe (4-byte stream buffer with partial writes / 1-datagram queue): one context-controlled read or write whose context is cancelled by a separate thread at every possible point (before, during, after), a peer thread, then a probe operation with a live context; every interleaving within the deviation bound (thorough: unbounded, the whole interleaving space is closed by the state cache)",
+		Rule:        "for netctx.Conn, netctx.PacketConn and connctx over a scheduler-visible pipe (4-byte stream buffer with partial writes / 1-datagram queue): one context-controlled read or write whose context is cancelled by a separate thread at every possible point (before, during, after), a peer thread, then a probe operation with a live context; also two threads operating on the same wrapped connection concurrently, one context cancelled and one live; every interleaving within the deviation bound (thorough: unbounded, the whole interleaving space is closed by the state cache)",
 		Assumptions: []string{"the wrapped connection is the harness's fake with exact deadline semantics (a passed deadline fails the blocked and every later operation until reset)"}})
 }
